@@ -647,8 +647,14 @@ impl TxRecoveryState {
                     );
                 },
                 TxWalEntry::PrepareVote { tx_id, shard, vote } => {
-                    if let Some((_, votes, _)) = in_progress.get_mut(tx_id) {
-                        votes.push((*shard, *vote));
+                    // `record_vote` logs a vote before validating it, so the log also
+                    // holds votes the coordinator rejected: late ones (the transaction
+                    // had left Preparing) and duplicates (the shard had voted). Replay
+                    // must reject them the same way, or a restart changes the votes.
+                    if let Some((_, votes, phase)) = in_progress.get_mut(tx_id) {
+                        if *phase == TxPhase::Preparing && !votes.iter().any(|(s, _)| s == shard) {
+                            votes.push((*shard, *vote));
+                        }
                     }
                 },
                 TxWalEntry::PhaseChange { tx_id, to, .. } => {
